@@ -11,6 +11,10 @@ Oracle (never the model): byte snapshots (data, shape, strides, dtype) of every 
 every call — the cases above, every public function of nitime.algorithms, every analyzer output,
 calls made to fail (bad NFFT, mismatched shapes, non-uniform increments, non-contiguous input) —
 and identity / content checks on copies followed by in-place operations.
+Session 3 (helpers in c16_ext.py): every plain array argument re-stored in 13 other representations (integer / float32 / complex64 / bool / big-endian /
+Fortran / strided / extra leading axes); per family a process history (all entries; results handed out stay what they were; no memory shared between a
+result and an argument or another result; other sizes and other values; the caller overwrites every result; all entries again on equal fresh buffers =>
+equal results; analyzers likewise, plus another recording in between); every optional parameter with non-default and falsy values; ALMOST uniform operands.
 """
 import operator, re
 import numpy as np
@@ -24,11 +28,16 @@ RULE = ('operators x operand kinds {pyint, list, int64/int32/float64 array, time
         'crosscov on integer-valued signals (generic / antisymmetric = exactly zero mean / pre-centred / zero / constant) x all_lags x debias x normalize; '
         'entry-point sweep over nitime.algorithms + the array routines of nitime.utils + every analyzer (constructor and every output), each call over '
         '19 input families (generic, exactly-zero-mean, centred, zeros, constant, unit variance, unit norm, sorted, integer-valued, int64, float32, complex, '
-        'NaN, masked, Fortran, non-contiguous, one channel, short) with injected failures, once on writable and once on read-only buffers; '
+        'NaN, masked, Fortran, non-contiguous, one channel, short; and EVERY plain array argument of every entry re-stored as int16/int32/int64/uint8/bool/float32/complex64/'
+        'big-endian/Fortran/strided) with injected failures, once on writable and once on read-only buffers; process history per family: all entries, L6 re-check of every '
+        'result handed out, other-size pass, caller overwrites every result, third pass on equal fresh buffers => equal result; results may not share memory with arguments / '
+        'other results; every optional parameter left at its default set to non-default and falsy values; += / -= operands that are ALMOST ramps (one sample off by 1..7 in a step of 1e5..1e9); '
         'distinct = distinct protocol line / entry point x family')
 ASSUMPTIONS = ['the algorithm entry points other than remove_bias/crosscov are judged by snapshots and by the static alias table only (no value model in Lean)',
                'functions documented as working in place are excluded: normalize_coherence(copy=False), normal_coherence_to_unit(out=), unwrap_phases, fill_diagonal, tridi_inverse_iteration(x0=) — named in Props.C16.inPlaceByContract',
-               'a result that shares memory with an argument (zero_pad at full length, ar_generator returning its noise) is not a failure by itself: only writes to arguments are']
+               'a result must not share memory with an argument or with the result of another call, except where the routine hands back (a view of) its argument by design: zero_pad at full length, ar_generator(v=), the in-place-by-contract routines, multi_intersect of one array, indexing / slicing / during / at of time objects and series, TimeSeries(data) and Events(t, key=array) wrapping the arrays they are given, a series\' stored .time — c16_ext.RESULT_MAY_BE_ARGUMENT, mirrored by Props.C16.mayReturnArgument on the generated table',
+               'a second call with equal arguments must give the equal result up to 1e-9 of the largest magnitude (the global numpy generator is put into the same state before both calls)',
+               'optional parameters are varied one at a time over a name-keyed value table (c16_ext.NAME_VALUES) plus type-derived non-default / falsy values; parameters that ARE the in-place switch (copy, out, x0) are not varied']
 TRUSTED_EXTRA = ['numpy view/copy semantics (ndarray.reshape, astype, copy, asarray, squeeze, conj …) by their documented behaviour, as classified in harness/translate_c16.py (fresh / same object / view)',
                  'harness/translate_c16.py: intraprocedural may-alias analysis with per-file function summaries (its table is echoed into the evidence); unknown calls are treated as returning any of their arguments',
                  'scipy fftconvolve = full linear convolution (the crosscov model computes it naively on rationals; compared numerically on every run)',
@@ -80,6 +89,13 @@ def differs(a, b):
     """which aspect of an array snapshot changed"""
     if a == b:
         return None
+    if a[0] == 'TS' and b[0] == 'TS':
+        # the lazily created time axis of a series (a cache filled by the first read of `.time`) is not a change of the series
+        d0, d1 = dict(a[1]), dict(b[1])
+        if 'time' not in d0:
+            d1.pop('time', None)
+        if d0 == d1:
+            return None
     if a[0] == 'A' and b[0] == 'A':
         if a[2] != b[2]:
             return 'shape-changed'
@@ -248,7 +264,15 @@ def gen_setitem(rng, kind):
 def gen_uniform(rng, kind, shape):
     unit = rng.choice(['ps', 'ns', 'us', 'ms', 's'])
     n = rng.randint(3, 6)
-    if shape == 'uniform':
+    if shape == 'almost':
+        # ALMOST a ramp: a step of 10^5 … 10^9 with one sample off by a few units (relative irregularity 1e-9 … 1e-4):
+        # exactly non-uniform, so the operation must be refused and the axis stay as it was
+        unit = rng.choice(['ps', 'ns', 'us'])
+        st = rng.choice([10**5, 10**6, 10**7, 123456789, 10**9, -10**6])
+        a0 = rng.randint(-5, 5)
+        vals = [a0 + i * st for i in range(n)]
+        vals[rng.randrange(1, n)] += rng.choice([1, -1, 2, 3, 7])
+    elif shape == 'uniform':
         a0, st = rng.randint(-5, 5), rng.choice([1, 2, -1, 3])
         vals = [a0 + i * st for i in range(n)]
     elif shape == 'nonuniform':
@@ -265,7 +289,7 @@ def gen_uniform(rng, kind, shape):
         vals = vals[:1]
     if kind == 'float64':
         # whole numbers as floats, or decimal ramps whose binary64 products are (or are not) equally spaced
-        if rng.random() < 0.5:
+        if rng.random() < 0.5 or shape == 'almost':
             vals = [float(v) for v in vals]
         else:
             stf = rng.choice([0.1, 0.25, 0.3, 1.1, -0.7])
@@ -274,6 +298,7 @@ def gen_uniform(rng, kind, shape):
     before = snap(obj)
     u = ts().UniformTime(t0=0, sampling_interval=10, length=n, time_unit=unit)
     dt0 = int(u.sampling_interval)
+    axis_before = snap(u)
     try:
         if rng.random() < 0.5:
             u += obj
@@ -288,7 +313,7 @@ def gen_uniform(rng, kind, shape):
     line = 'C16 uniform %s %s' % (unit, operand_tok(kind, vals, meta))
     return Case(line, impl, 'uniform/%s/%s' % (shape, kind), cmp=cmp_uniform_float if kind == 'float64' else cmp_fixed,
                 meta={'what': 'uniform', 'kind': kind, 'shape': shape, 'unit': unit, 'n': n, 'vals': vals, 'tmeta': meta,
-                      'changed': differs(before, snap(obj))})
+                      'changed': differs(before, snap(obj)), 'axis_changed': snap(u) != axis_before, 'accepted': res.startswith('ok')})
 
 
 def gen_series(rng):
@@ -425,7 +450,9 @@ def cases(rng, tier, seed):
             out.append(gen_setitem(rng, kind))
     for _ in range(15 * k):
         for kind in ('list', 'int64', 'time', 'int32', 'float64'):
-            for shape in ('uniform', 'nonuniform', 'one'):
+            for shape in ('uniform', 'nonuniform', 'one', 'almost'):
+                if shape == 'almost' and kind == 'int32':
+                    continue
                 out.append(gen_uniform(rng, kind, shape))
         out.append(gen_uniform(rng, 'pyint', 'one'))
     for _ in range(60 * k):
@@ -448,6 +475,14 @@ def judge_case(c):
             site = {'binop': 'binop/%s' % m.get('op'), 'setitem': 'setitem', 'uniform': 'uniform-iop/%s' % m.get('shape')}[w]
             return Failure('%s/%s/operand-%s' % (site, m['kind'], m['changed']),
                            '%s: the caller\'s %s operand was modified (%s)  [%s] impl=%s' % (c.clause, m['kind'], m['changed'], c.line[:200], c.impl[:160]),
+                           {'what': w, 'meta': m, 'line': c.line}, case=c)
+        if w == 'uniform' and exactly_nonuniform(m) and (m.get('accepted') or m.get('axis_changed')):
+            # independent of the model: exact integer differences of the operand
+            sym = 'non-uniform-operand-accepted' if m.get('accepted') else 'refused-but-axis-changed'
+            return Failure('uniform-iop/%s/%s/%s' % (m.get('shape'), m['kind'], sym),
+                           '%s: the operand %s (unit %s) is NOT equally spaced (differences %s) but UniformTime += / -= %s  [%s]'
+                           % (c.clause, m['vals'], m['unit'], sorted({q - p for p, q in zip(m['vals'], m['vals'][1:])}),
+                              'accepted it: the samples are no longer t0 + i*interval' if m.get('accepted') else 'refused it and left the axis changed', c.line[:160]),
                            {'what': w, 'meta': m, 'line': c.line}, case=c)
         if w == 'setitem' and m['kind'] == 'list' and c.impl.startswith('err') and expected_setitem_ok(m):
             return Failure('setitem/list/raises', '%s: assigning a python list of the right length raises (the list is repeated factor times instead of being scaled)  [%s]' % (c.clause, c.line[:200]),
@@ -478,6 +513,15 @@ def judge_case(c):
                            {'what': w, 'meta': m, 'line': c.line}, case=c)
         return None
     return None
+
+
+def exactly_nonuniform(m):
+    """operand of += / -= with >= 3 whole-number samples whose exact differences are not all equal"""
+    v = m['vals']
+    if m['kind'] == 'pyint' or len(v) < 3 or any(float(x) != int(x) for x in v):
+        return False
+    v = [int(x) for x in v]
+    return len({q - p for p, q in zip(v, v[1:])}) > 1
 
 
 def expected_setitem_ok(m):
@@ -522,7 +566,13 @@ def rejudge(d):
             t[m['a']:m['b']] = obj
         else:
             u = ts().UniformTime(t0=0, sampling_interval=10, length=m['n'], time_unit=m['unit'])
-            u += obj
+            ub = snap(u)
+            m = dict(m, accepted=False, axis_changed=False)
+            try:
+                u += obj
+                m['accepted'] = True
+            finally:
+                m['axis_changed'] = snap(u) != ub
     except Exception:  # noqa
         res = 'err'
     m2 = dict(m, changed=differs(before, snap(obj)))
@@ -537,7 +587,8 @@ def rejudge(d):
 # inputs, and a short cut that hands back (or keeps working on) the caller's buffer only shows there.
 FAMILIES = ['generic', 'zero-mean', 'centred', 'zeros', 'constant', 'unit-var', 'unit-norm', 'sorted',
             'int-valued', 'int-dtype', 'float32', 'complex', 'complex-zero-mean', 'nan', 'masked', 'fortran',
-            'noncontig', 'one-channel', 'short']
+            'noncontig', 'one-channel', 'short'] + ['L1-' + k_ for k_ in ('int16', 'int32', 'int64', 'uint8', 'bool', 'float32', 'complex64', 'bigendian',
+                                                                        'fortran', 'strided', 'lead1', 'lead2', 'lead2-int')]
 QUICK_FAMILIES = FAMILIES
 
 
@@ -766,6 +817,26 @@ def entry_points(rs, variant=0, fam='generic'):
     add('utils.bayesian_information_criterion', ut.bayesian_information_criterion, cov, 2, 2, 100)
     add('utils.ar_generator/v', ut.ar_generator, N, 1.0, np.array([0.5, -0.2]), 0, A(N))
     add('utils.tridi_inverse_iteration', ut.tridi_inverse_iteration, np.arange(1., 9.), np.full(7, 0.5), 1.3)
+    add('utils.ar_generator/v-sigma-transients', ut.ar_generator, N, 0.5, np.array([0.5, -0.2]), 5, A(N + 5))
+    add('utils.ar_generator/defaults', ut.ar_generator, N, drop_transients=3)
+    add('utils.dB/amplitude', ut.dB, np.abs(np.asarray(A(N))) + 1, power=False)
+    add('utils.multi_intersect', ut.multi_intersect, [rs.randint(0, 9, size=12), rs.randint(0, 9, size=(3, 4)), rs.randint(0, 9, size=7)])
+    add('utils.multi_intersect/one', ut.multi_intersect, [A(4, 4)])
+    add('utils.fill_diagonal/copy-expected', lambda a_, val: ut.fill_diagonal(a_.copy(), val), np.asarray(A(4, 4)), 2.0)
+    add('utils.expected_jk_variance', ut.expected_jk_variance, 5)
+    add('utils.hanning_window_spectrum', ut.hanning_window_spectrum, 32, 2.0)
+    add('utils.square_window_spectrum', ut.square_window_spectrum, 32, 2.0)
+    add('utils.circle_to_hz', ut.circle_to_hz, np.abs(np.asarray(A(9)).real), 2.0)
+    add('utils.diag_indices', ut.diag_indices, 4, ndim=3)
+    add('utils.diag_indices_from', ut.diag_indices_from, A(4, 4))
+    add('utils.mask_indices', ut.mask_indices, 4, np.triu, 1)
+    add('utils.tril_indices_from', ut.tril_indices_from, A(4, 4), -1)
+    add('utils.triu_indices_from', ut.triu_indices_from, A(4, 4), 1)
+    add('utils.tril_indices', ut.tril_indices, 5, 1)
+    add('utils.triu_indices', ut.triu_indices, 5, -1)
+    add('utils.structured_rand_arr', ut.structured_rand_arr, 4, fill_diag=0.5, utfac=-1.0)
+    add('utils.symm_rand_arr', ut.symm_rand_arr, 4, fill_diag=1.0)
+    add('utils.antisymm_rand_arr', ut.antisymm_rand_arr, 4)
     add('utils.detect_lines', ut.detect_lines, x, (4, 3), p=0.5, low_bias=False)
     add('utils.fir_design_matrix', ut.fir_design_matrix, np.array([0, 1, 0, 0, 2, 0, 0, 0] * (N // 8)), 3)
     add('get_spectra', alg.get_spectra, big, method=dict(m64))
@@ -803,7 +874,87 @@ def entry_points(rs, variant=0, fam='generic'):
     add('FAIL/crosscov/mismatched', ut.crosscov, A(N), A(N - 1))
     add('FAIL/crosscov_vector/mismatched', ut.crosscov_vector, A(2, N), A(3, N - 1))
     add('FAIL/periodogram_csd/non-contiguous-3d', alg.periodogram_csd, np.asarray(A(2, 4, N))[:, ::2, :])
+    time_entry_points(rs, add, A, C, N)
     return E
+
+
+def time_entry_points(rs, add, A, C, N):
+    """queries, reductions, constructors and copies of the time classes (nitime.timeseries): the time object the method is
+    called on is argument 0 like any other; in-place operators (the object changes by contract) are wrapped so that only
+    the OPERAND is an argument"""
+    t = ts()
+    TA = lambda: t.TimeArray(np.arange(0, 4 * N, 4), time_unit='ms')
+    UT = lambda: t.UniformTime(t0=1, sampling_interval=2, length=N, time_unit='ms')
+    SR = lambda: t.TimeSeries(A(C, N), sampling_interval=0.5, t0=1.0, time_unit='s')
+    q1 = lambda: t.TimeArray(8, time_unit='ms')
+    qn = lambda: t.TimeArray([8, 21, 40], time_unit='ms')
+    ep = lambda: t.Epochs(0.004, 0.03, time_unit='s')
+    eps = lambda: t.Epochs([0.004, 0.05], [0.03, 0.08], time_unit='s')
+    have = lambda cls, nm: getattr(cls, nm, None) is not None
+    add('ts.TimeArray.ctor', t.TimeArray, A(N), time_unit='ms')
+    add('ts.TimeArray.ctor/int64', t.TimeArray, np.arange(N), time_unit='us')
+    add('ts.TimeArray.ctor/list', t.TimeArray, [1, 2, 3], time_unit='ms')
+    add('ts.TimeArray.ctor/time', t.TimeArray, TA())
+    add('ts.TimeArray.at', t.TimeArray.at, TA(), q1())
+    add('ts.TimeArray.index_at', t.TimeArray.index_at, TA(), q1())
+    add('ts.TimeArray.index_at/many', t.TimeArray.index_at, TA(), qn())
+    add('ts.TimeArray.index_at/tol-before', t.TimeArray.index_at, TA(), qn(), tol=1, mode='before')
+    add('ts.TimeArray.index_at/after', t.TimeArray.index_at, TA(), qn(), mode='after')
+    add('ts.TimeArray.during', t.TimeArray.during, TA(), ep())
+    add('ts.TimeArray.slice_during', t.TimeArray.slice_during, TA(), ep())
+    add('ts.TimeArray.convert_unit', lambda ta: ta.copy().convert_unit('s'), TA())
+    for red in ('min', 'max', 'mean', 'sum', 'ptp', 'std', 'var', 'prod'):
+        if have(t.TimeArray, red):
+            add('ts.TimeArray.' + red, getattr(t.TimeArray, red), t.TimeArray(np.arange(1, 7), time_unit='ms'))
+    for opn in ('__truediv__', '__floordiv__', '__neg__', '__abs__'):
+        if have(t.TimeArray, opn):
+            add('ts.TimeArray.' + opn, getattr(operator, opn), TA(), *(() if opn in ('__neg__', '__abs__') else (np.full(N, 2),)))
+    add('ts.TimeArray.getitem', operator.getitem, TA(), slice(2, 9))
+    add('ts.UniformTime.ctor/duration-rate', t.UniformTime, duration=10, sampling_rate=4.0, time_unit='s')
+    add('ts.UniformTime.ctor/time', t.UniformTime, UT())
+    add('ts.UniformTime.at', t.UniformTime.at, UT(), q1())
+    add('ts.UniformTime.index_at', t.UniformTime.index_at, UT(), qn())
+    add('ts.UniformTime.index_at/boolean', t.UniformTime.index_at, UT(), qn(), boolean=True)
+    add('ts.UniformTime.during', t.UniformTime.during, UT(), ep())
+    add('ts.UniformTime.slice_during', t.UniformTime.slice_during, UT(), ep())
+    for red in ('min', 'max'):
+        add('ts.UniformTime.' + red, getattr(t.UniformTime, red), UT())
+    for opn in ('__mul__', '__truediv__', '__neg__'):
+        if have(t.UniformTime, opn):
+            add('ts.UniformTime.' + opn, getattr(operator, opn), UT(), *(() if opn == '__neg__' else (2,)))
+    add('ts.UniformTime.__rmul__', lambda k_, u: k_ * u, 3, UT())
+    add('ts.UniformTime.getitem', operator.getitem, UT(), slice(2, 9))
+    add('ts.UniformTime.__itruediv__/operand', lambda o: operator.itruediv(UT(), o), np.full(N, 2))
+    add('ts.UniformTime.__imul__/operand', lambda o: operator.imul(UT(), o), np.array(3))
+    add('ts.UniformTime.__setitem__/operand', lambda o: UT().__setitem__(slice(0, 3), o), np.array([1, 3, 5]))
+    add('ts.TimeSeries.ctor', t.TimeSeries, A(C, N), sampling_interval=0.5)
+    add('ts.TimeSeries.ctor/rate-t0-unit', t.TimeSeries, A(C, N), sampling_rate=2.0, t0=t.TimeArray(3, time_unit='s'), time_unit='ms')
+    add('ts.TimeSeries.ctor/time', t.TimeSeries, A(C, N), time=UT())
+    add('ts.TimeSeries.ctor/duration', t.TimeSeries, A(C, N), duration=N * 0.5, sampling_interval=0.5)
+    add('ts.TimeSeries.ctor/list', t.TimeSeries, [[1.0, 2.0, 3.0], [4.0, 5.0, 6.0]], sampling_interval=1)
+    add('ts.TimeSeries.copy', t.TimeSeries.copy, SR())
+    add('ts.TimeSeries.at', t.TimeSeries.at, SR(), t.TimeArray(2.0, time_unit='s'))
+    add('ts.TimeSeries.during', t.TimeSeries.during, SR(), t.Epochs(2.0, 6.0, time_unit='s'))
+    add('ts.TimeSeries.during/many', t.TimeSeries.during, SR(), t.Epochs([2.0, 8.0], [6.0, 12.0], time_unit='s'))
+    add('ts.TimeSeries.getitem', operator.getitem, SR(), 0)
+    add('ts.TimeSeries.len', len, SR())
+    add('ts.TimeSeries.time', lambda s_: s_.time, SR())
+    for opn in ('iadd', 'isub', 'imul', 'itruediv'):
+        add('ts.TimeSeries.__%s__/operand' % opn, lambda o, opn=opn: getattr(operator, opn)(SR(), o), A(N))
+        add('ts.TimeSeries.__%s__/series-operand' % opn, lambda o, opn=opn: getattr(operator, opn)(SR(), o), SR())
+    for opn in ('add', 'sub', 'mul', 'truediv'):
+        add('ts.TimeSeries.__%s__' % opn, getattr(operator, opn), SR(), A(N))
+        add('ts.TimeSeries.__%s__/series' % opn, getattr(operator, opn), SR(), SR())
+    add('ts.concatenate_time_series', t.concatenate_time_series, [SR(), SR()])
+    add('ts.Epochs.ctor', t.Epochs, np.array([0.5, 2.0]), np.array([1.0, 3.5]), time_unit='s')
+    add('ts.Epochs.ctor/duration-offset', t.Epochs, np.array([0.5, 2.0]), duration=1.0, offset=-0.25, time_unit='s')
+    add('ts.Epochs.getitem', operator.getitem, eps(), 1)
+    add('ts.Epochs.len', len, eps())
+    add('ts.Events.ctor', t.Events, np.array([0.5, 2.0, 3.5]), i=np.array([1, 2, 1]), time_unit='s')
+    add('ts.Events.ctor/indices-labels', t.Events, [0.5, 2.0, 3.5], labels=['j'], indices=[np.array([4, 5, 6])], time_unit='ms')
+    add('ts.Events.ctor/time', t.Events, t.TimeArray([1, 2, 3], time_unit='s'), v=A(3))
+    add('ts.Events.getitem', operator.getitem, t.Events(np.array([0.5, 2.0, 3.5]), i=np.array([1, 2, 1]), time_unit='s'), 1)
+    add('ts.Events.len', len, t.Events(np.array([0.5, 2.0, 3.5]), time_unit='s'))
 
 
 def analyzers(rs):
@@ -817,6 +968,10 @@ def analyzers(rs):
     seed1 = lambda s: t.TimeSeries(s.data[0].copy(), sampling_interval=s.sampling_interval)
     welch = lambda **k: dict({'this_method': 'welch', 'NFFT': 32}, **k)
     add('SpectralAnalyzer', lambda s: (an.SpectralAnalyzer, (s,), {'method': {'NFFT': 32}}), ['psd', 'cpsd', 'periodogram', 'spectrum_fourier', 'spectrum_multi_taper'])
+    add('SpectralAnalyzer-default', lambda s: (an.SpectralAnalyzer, (s,), {}), ['psd', 'cpsd', 'spectrum_fourier'])
+    add('CoherenceAnalyzer-default', lambda s: (an.CoherenceAnalyzer, (s,), {}), ['coherence', 'frequencies', 'delay'])
+    add('SparseCoherenceAnalyzer-default', lambda s: (an.SparseCoherenceAnalyzer, (s,), {'ij': [(0, 1), (1, 0), (1, 2), (1, 2)]}), ['coherence', 'frequencies'])
+    add('SeedCoherenceAnalyzer-default', lambda s: (an.SeedCoherenceAnalyzer, (seed1(s), s), {}), ['coherence', 'frequencies'])
     add('SpectralAnalyzer-welch-dict', lambda s: (an.SpectralAnalyzer, (s,), {'method': welch()}), ['psd', 'cpsd'])
     add('SpectralAnalyzer-mt-dict', lambda s: (an.SpectralAnalyzer, (s,), {'method': {'this_method': 'multi_taper_csd'}}), ['psd', 'cpsd', 'spectrum_multi_taper'])
     add('FilterAnalyzer', lambda s: (an.FilterAnalyzer, (s,), {'lb': 0.1, 'ub': 0.3, 'filt_order': 16}), ['filtered_boxcar', 'filtered_fourier', 'fir', 'iir'])
@@ -830,6 +985,7 @@ def analyzers(rs):
     add('NormalizationAnalyzer', lambda s: (an.NormalizationAnalyzer, (s,), {}), ['percent_change', 'z_score'])
     add('HilbertAnalyzer', lambda s: (an.HilbertAnalyzer, (s,), {}), ['analytic', 'amplitude', 'phase', 'real', 'imag'])
     add('MorletWaveletAnalyzer', lambda s: (an.MorletWaveletAnalyzer, (seed1(s),), {'freqs': 0.2, 'sd_rel': 0.2}), ['analytic', 'amplitude', 'phase', 'real', 'imag'])
+    add('MorletWaveletAnalyzer-sd-range', lambda s: (an.MorletWaveletAnalyzer, (seed1(s),), {'freqs': None, 'sd': 0.05, 'f_min': 0.1, 'f_max': 0.4, 'nfreqs': 3, 'log_spacing': True, 'log_morlet': True}), ['analytic', 'amplitude'])
     add('MorletWaveletAnalyzer-freq-array', lambda s: (an.MorletWaveletAnalyzer, (seed1(s),), {'freqs': np.array([0.1, 0.2]), 'sd_rel': 0.2}), ['analytic', 'amplitude'])
     add('SNRAnalyzer', lambda s: (an.SNRAnalyzer, (s,), {}), ['mt_noise_psd', 'mt_signal_psd', 'mt_coherence', 'mt_information', 'correlation'])
     add('GrangerAnalyzer', lambda s: (an.GrangerAnalyzer, (s,), {'order': 2}), ['causality_xy', 'causality_yx', 'simultaneous_causality', 'frequencies'])
@@ -865,6 +1021,8 @@ def freeze(x, depth=0):
     elif isinstance(x, (list, tuple)) and depth < 3:
         for v in x:
             freeze(v, depth + 1)
+    elif isinstance(getattr(x, 'data', None), np.ndarray) and depth < 3:
+        freeze(x.data, depth + 1)
 
 
 def arrays_in(x, depth=0):
@@ -896,50 +1054,75 @@ def arg_label(lab):
     return 'method-dict' if lab in ('method', 'csd_method') else lab
 
 
+OPTION_FAMILIES = ('generic', 'zero-mean', 'L1-int32')
+
+
+def call_entry(name, f, a, k):
+    """one call of an entry point with the global numpy generator in a fixed state -> (result, kind of exception or None)"""
+    import zlib
+    np.random.seed(zlib.crc32(name.encode()) & 0x7fffffff)
+    try:
+        return f(*a, **k), None
+    except Exception as e:  # noqa
+        return None, err_kind(e)
+
+
 def sweep(tier, seed, only=None):
     """snapshots around every entry point, over every input family; returns (failures, stats)
 
     per call: (1) every argument (arrays, series, dicts, lists) is snapshotted before and compared after,
-    whether the call returns or raises; (2) when it returns, every array of the result that shares memory
-    with an array argument is overwritten and the argument compared again (a result that IS the caller's
-    buffer is no new result); (3) the same call is repeated on identical inputs whose buffers are marked
-    read-only: a call that returned before and is now refused by numpy because it writes to its argument
-    shows the write even where the values written happen to equal the old ones."""
+    whether the call returns or raises; (2) when it returns, no array of the result may share memory with an
+    argument (unless the routine hands back its argument by design) or with the result of another call; (3) the same
+    call is repeated on identical inputs whose buffers are marked read-only: a call that returned before and is now
+    refused by numpy because it writes to its argument shows the write even where the values written happen to equal
+    the old ones; (4) PROCESS HISTORY: after all entry points of the table have been called, every result handed out
+    earlier must still hold what it held; then the table is run again with other sizes / values, the caller overwrites
+    everything it was handed (the arguments must not change by that), and the table is run a third time on fresh
+    buffers equal to the first ones: equal arguments => equal result; (5) every optional parameter an entry leaves at
+    its default is set to non-default and falsy values (arguments unchanged, returned or raised)."""
     import warnings
+    import c16_ext as X
     fails, ncalls, nraised, names, nro, nalias = [], 0, 0, set(), 0, 0
+    nsecond, nopt, nana2 = 0, 0, 0
     variants = [0] if tier == 'quick' else [0, 1, 2]
     fams = QUICK_FAMILIES if tier == 'quick' else FAMILIES
     famcount = {}
     with warnings.catch_warnings():
         warnings.simplefilter('ignore')
-        reps = 1 if tier == 'quick' else 3          # thorough: three independent draws of every family
+        reps = 1 if tier == 'quick' or only else 3          # thorough: three independent draws of every family
         for v, rep_i in [(v, r) for v in variants for r in range(reps)]:
+            if only and only.get('variant') is not None and v != only['variant']:
+                continue
             for fam in fams:
                 if only and only.get('fam') not in (None, fam):
                     continue
                 stream = 'sweep/%d/%s' % (v, fam) + ('' if rep_i == 0 else '/%d' % rep_i)
+                base_fam = 'generic' if fam.startswith('L1-') else fam
+
+                def build(stream_, v_=v, fam=fam, base_fam=base_fam):
+                    E_ = entry_points(np_rng(PID, seed, stream_), v_, base_fam)
+                    return X.retype_entries(E_, fam[3:]) if fam.startswith('L1-') else E_
                 try:
-                    E = entry_points(np_rng(PID, seed, stream), v, fam)
-                    E_ro = entry_points(np_rng(PID, seed, stream), v, fam)     # identical inputs, separate buffers
+                    E = build(stream)
+                    E_ro = build(stream)     # identical inputs, separate buffers
+                    E3 = build(stream)
                 except Exception as e:  # noqa
                     fails.append(Failure('entry/setup/%s/%s' % (fam, err_kind(e)), 'cannot build the entry-point table for family %s: %r' % (fam, e), {'what': 'sweep'}))
                     continue
-                tag = '' if fam == 'generic' else '[%s]' % fam
-                for (name, f, a, k), (_, f2, a2, k2) in zip(E, E_ro):
-                    if only and only.get('name') not in (None, name):
-                        continue
-                    rep = {'what': 'sweep', 'name': name, 'variant': v, 'fam': fam, 'seed': seed}
+                hist = X.History(fam, {'what': 'sweep', 'variant': v, 'fam': fam, 'seed': seed})
+
+                def one_call(name, f, a, k, f2=None, a2=None, k2=None, keyname=None, record=True):
+                    """(1)-(3) for one call; returns True when an argument was modified"""
+                    nonlocal ncalls, nraised, nro
+                    keyname = keyname or name
+                    rep = {'what': 'sweep', 'name': name.split('?')[0], 'variant': v, 'fam': fam, 'seed': seed}
                     labels = ['arg%d' % i for i in range(len(a))] + [arg_label(key) for key in sorted(k)]
                     argv = list(a) + [k[key] for key in sorted(k)]
                     before = [snap(x) for x in argv]
-                    try:
-                        res = f(*a, **k)
-                        raised = False
-                    except Exception:  # noqa
-                        raised, res = True, None
-                        nraised += 1
+                    res, raised = call_entry(name, f, a, k)
+                    nraised += 1 if raised else 0
                     ncalls += 1
-                    names.add(name)
+                    names.add(keyname)
                     famcount[fam] = famcount.get(fam, 0) + 1
                     after = [snap(x) for x in argv]
                     hit = False
@@ -948,52 +1131,100 @@ def sweep(tier, seed, only=None):
                         if dd:
                             hit = True
                             sym = 'argument-mutated/' + dict_delta(b0, b1) if lab == 'method-dict' else dd
-                            fails.append(Failure('entry/%s/%s%s%s' % (name, lab, '/' if lab == 'method-dict' else '-', sym),
-                                                 'nitime %s %s its argument `%s` modified (%s); input family: %s' % (name, 'raised and left' if raised else 'returned with', lab, dd, fam), rep))
+                            fails.append(Failure('entry/%s/%s%s%s' % (keyname, lab, '/' if lab == 'method-dict' else '-', sym),
+                                                 'nitime %s %s its argument `%s` modified (%s); input family: %s' % (name, 'raised (%s) and left' % raised if raised else 'returned with', lab, dd, fam), rep))
                     if raised and 'non-contiguous' in name:
                         fails.append(Failure('entry/%s/refused' % name, 'periodogram_csd refuses a non-contiguous input', rep))
                     if hit:
-                        continue
-                    # (2) results handed back in the caller's buffer are counted (not a failure by themselves: the
-                    # property is about the arguments staying as they were — any write through such an alias is
-                    # seen by (1) and (3) at the routine that makes it)
-                    if not raised and 'copy-expected' not in name:
-                        for r in arrays_in(res):
-                            if any(xa.size and r.size and np.shares_memory(r, xa) for x in argv for xa in arrays_in(x)):
-                                nalias += 1
+                        return True
+                    if record:
+                        hist.record(name, labels, argv, after, res, raised)
                     # (3) the same call on read-only buffers
-                    if not raised:
+                    if not raised and f2 is not None:
                         argv2 = list(a2) + [k2[key] for key in sorted(k2)]
                         for x in argv2:
                             freeze(x)
-                        try:
-                            f2(*a2, **k2)
-                        except Exception as e:  # noqa
-                            msg = str(e)
-                            if isinstance(e, (ValueError, TypeError)) and any(m in msg for m in READONLY_MSG) and 'buffer source array' not in msg:
-                                fails.append(Failure('entry/%s/writes-to-read-only-argument' % name,
+                        _, e2 = call_entry(name, f2, a2, k2)
+                        if e2 is not None:
+                            try:
+                                np.random.seed(0)
+                                f2(*a2, **k2)
+                                msg = ''
+                            except Exception as e:  # noqa
+                                msg = str(e) if isinstance(e, (ValueError, TypeError)) else ''
+                            if any(m in msg for m in READONLY_MSG) and 'buffer source array' not in msg:
+                                fails.append(Failure('entry/%s/writes-to-read-only-argument' % keyname,
                                                      'nitime %s returns normally on writable inputs but is refused on the same inputs marked read-only (%s): it writes to an argument; input family: %s' % (name, msg[:80], fam), rep))
                         nro += 1
-                # analyzers
-                T = ts().TimeSeries
-                for name, build, attrs in analyzers(None):
+                    return False
+
+                for (name, f, a, k), (_, f2, a2, k2) in zip(E, E_ro):
                     if only and only.get('name') not in (None, name):
                         continue
-                    data = np.asarray(fam_array(np_rng(PID, seed, stream + '/' + name), (3, 128), fam if fam not in ('one-channel', 'masked') else 'generic'))
-                    s_in = T(data.copy(), sampling_interval=0.5, t0=2.0, time_unit='s')
-                    s_in.metadata['k'] = [1, 2]
-                    _ = s_in.time
+                    one_call(name, f, a, k, f2, a2, k2)
+                # (4) process history
+                hist.judge_handed_out(fails, 'by-a-later-call')
+                n0 = len(fails)
+                hist.judge_aliases(fails)
+                nalias += len(hist.items)
+                if not only or only.get('name') is None:
+                    # other sizes, then the SAME sizes with other values (a memo keyed by shape / by id answers stale)
+                    for stream_p, v_p in ((stream + '/perturb', 1 if v == 0 else 0), (stream + '/perturb-same-shapes', v)):
+                        try:
+                            for name, f, a, k in build(stream_p, v_p):
+                                r_, _ = call_entry(name, f, a, k)
+                                if not name.startswith(X.RESULT_MAY_BE_ARGUMENT):
+                                    X.histories.scribble(r_)
+                        except Exception:  # noqa
+                            pass
+                hist.scribble(fails)
+                nsecond += hist.judge_second_pass(fails, [e for e in E3 if not only or only.get('name') in (None, e[0])], call_entry)
+                # (5) optional parameters
+                if fam in OPTION_FAMILIES or tier != 'quick':
+                    for tag, f, a, k in X.option_variants([e for e in E3 if not only or only.get('name') in (None, e[0])]):
+                        base, par = tag.split('?')[0], tag.split('?')[1].split('=')[0]
+                        one_call(tag, f, a, k, keyname='%s/opt:%s' % (base, par), record=False)
+                        nopt += 1
+                # analyzers
+                T = ts().TimeSeries
+                pending = []
+                instances = {}
+
+                def ana_data(name_):
+                    d = np.asarray(fam_array(np_rng(PID, seed, stream + '/' + name_), (3, 128), base_fam if base_fam not in ('one-channel', 'masked') else 'generic'))
+                    if fam.startswith('L1-'):
+                        y = X.retype_array(d, fam[3:])
+                        d = d if y is None else y
+                    return d
+
+                def ana_series(name_, other=False):
+                    if other:       # another recording: other values, length, sampling rate, start and unit
+                        d_ = np.asarray(fam_array(np_rng(PID, seed, stream + '/other/' + name_), (3, 160), 'generic'))
+                        return T(d_, sampling_interval=250.0, t0=0.0, time_unit='ms')
+                    s_ = T(ana_data(name_).copy(), sampling_interval=0.5, t0=2.0, time_unit='s')
+                    s_.metadata['k'] = [1, 2]
+                    _ = s_.time
+                    return s_
+
+                def run_analyzer(name, build_, attrs, kw_override=None, where0=None, keep=False, other=False):
+                    nonlocal ncalls, nraised
+                    where0 = where0 or name
+                    try:
+                        s_in = ana_series(name, other)
+                    except Exception:  # noqa
+                        return None
                     rep = {'what': 'sweep', 'name': name, 'variant': v, 'fam': fam, 'seed': seed}
                     try:
-                        cls, a, k = build(s_in)
+                        cls, a, k = build_(s_in)
                     except Exception:  # noqa
-                        continue
+                        return None
+                    if kw_override is not None:
+                        k = dict(k, **kw_override)
                     labels = ['arg%d' % i for i in range(len(a))] + [arg_label(key) for key in sorted(k)]
                     argv = list(a) + [k[key] for key in sorted(k)]
-                    before = [snap(x) for x in argv]
-                    state = {'before': before}
+                    state = {'before': [snap(x) for x in argv]}
 
-                    def compare(where, labels=labels, argv=argv, state=state, name=name, rep=rep):
+                    def compare(where):
                         after = [snap(x) for x in argv]
                         for lab, x, b0, b1 in zip(labels, argv, state['before'], after):
                             if b0 == b1:
@@ -1008,24 +1239,90 @@ def sweep(tier, seed, only=None):
                             else:
                                 fails.append(Failure('entry/%s/%s-argument-mutated' % (where, lab), '%s changed its argument `%s` (%s)' % (where, lab, differs(b0, b1)), rep))
                         state['before'] = after
+                    np.random.seed(1)
                     try:
                         A_ = cls(*a, **k)
                     except Exception:  # noqa
                         nraised += 1
-                        compare(name)
-                        continue
+                        compare(where0)
+                        return None
                     ncalls += 1
-                    compare(name)
+                    compare(where0)
+                    outs = []
                     for at in attrs:
                         try:
-                            getattr(A_, at)
-                        except Exception:  # noqa
+                            val = getattr(A_, at)
+                            outs.append([at, val, X.canon(val)])
+                        except Exception as e:  # noqa
                             nraised += 1
+                            outs.append([at, None, ('raised', err_kind(e))])
                         ncalls += 1
-                        names.add(name + '.' + at)
-                        compare(name + '.' + at)
+                        names.add(where0 + '.' + at)
+                        compare(where0 + '.' + at)
+                    if keep:
+                        # outputs must be new objects: no memory shared with the input series
+                        for at, val, _ in outs:
+                            for r in X.result_arrays(val):
+                                if any(X.overlaps(r, xa) for x in argv for xa in X.arg_arrays([x])):
+                                    fails.append(Failure('analyzer/%s.%s/output-shares-memory-with-input' % (where0, at),
+                                                         'the output %s of %s shares memory with a constructor argument; input family: %s' % (at, where0, fam), rep))
+                                    break
+                        # L6: what was handed out by an earlier read still holds what it held
+                        for at, val, c0 in outs:
+                            if c0[0] != 'raised' and not X.same(c0, X.canon(val)):
+                                fails.append(Failure('analyzer/%s.%s/earlier-output-changed-by-later-read' % (where0, at),
+                                                     'the output %s of %s handed out earlier was changed by a later read; input family: %s' % (at, where0, fam), rep))
+                        for at, val, _ in outs:
+                            X.histories.scribble(val)
+                        compare(where0 + '.output-overwritten')
+                    instances[where0] = (A_, argv)
+                    return outs
+
+                for name, build_, attrs in analyzers(None):
+                    if only and only.get('name') not in (None, name):
+                        continue
+                    outs = run_analyzer(name, build_, attrs, keep=True)
+                    if outs is not None:
+                        pending.append((name, build_, attrs, outs))
+                    if (fam in OPTION_FAMILIES or tier != 'quick') and outs is not None:
+                        try:
+                            cls0, a0, k0 = build_(ana_series(name))
+                        except Exception:  # noqa
+                            continue
+                        for tag, k2 in X.analyzer_option_variants(cls0, a0, k0):
+                            par = tag.split('=')[0]
+                            run_analyzer(name, build_, attrs, kw_override={par: k2[par]}, where0='%s[opt:%s]' % (name, par))
+                            nopt += 1
+                # perturbation: the same analyzer classes on ANOTHER recording (other rate / length / unit): class-level or module-level
+                # defaults that remember the first input would now describe this one
+                for name, build_, attrs, outs in pending:
+                    o_ = run_analyzer(name, build_, attrs, where0=name + '[other-recording]', other=True)
+                    for at, val, _ in (o_ or []):
+                        X.histories.scribble(val)
+                    # two analyzers built from separate arguments share no mutable attribute object
+                    if name in instances and name + '[other-recording]' in instances:
+                        (A1, argv1), (A2, argv2) = instances[name], instances[name + '[other-recording]']
+                        mine = {id(x) for x in list(argv1) + list(argv2)}
+                        for at_ in sorted(set(vars(A1)) & set(vars(A2))):
+                            o1, o2 = vars(A1)[at_], vars(A2)[at_]
+                            if o1 is o2 and id(o1) not in mine and (isinstance(o1, (dict, list, set, np.ndarray)) or type(o1).__module__.startswith('nitime')):
+                                fails.append(Failure('analyzer/%s/instances-share-attribute-object/%s' % (name, at_),
+                                                     'two %s objects built from separate arguments hold the SAME %s object in `.%s` (state shared between analyzers: what one fills in, the other sees)' % (name, type(o1).__name__, at_),
+                                                     {'what': 'sweep', 'name': name, 'variant': v, 'fam': fam, 'seed': seed}))
+                # second pass: a NEW analyzer on an equal series, after every other analyzer ran and every output was overwritten
+                for name, build_, attrs, outs in pending:
+                    outs2 = run_analyzer(name, build_, attrs)
+                    nana2 += 1
+                    if outs2 is None:
+                        continue
+                    rep = {'what': 'sweep', 'name': name, 'variant': v, 'fam': fam, 'seed': seed}
+                    for (at, _, c0), (_, _, c1) in zip(outs, outs2):
+                        if not X.same(c0, c1):
+                            fails.append(Failure('analyzer/%s.%s/second-analyzer-differs' % (name, at),
+                                                 'a new %s on an equal series (after other analyzers ran and the caller overwrote the earlier outputs) gives another %s; input family: %s' % (name, at, fam), rep))
     return fails, {'entry_calls': ncalls, 'entry_points': len(names), 'raised': nraised, 'families': len(famcount),
-                   'read_only_repeats': nro, 'results_sharing_memory_checked': nalias}
+                   'read_only_repeats': nro, 'results_checked_for_shared_memory': nalias, 'second_pass_calls': nsecond,
+                   'option_variant_calls': nopt, 'second_analyzers': nana2}
 
 
 def copies(tier, seed):
@@ -1283,13 +1580,17 @@ def unmodelled_operands(tier, seed):
                 if dd:
                     fails.append(Failure('setitem/%s/operand-%s' % (kind, dd), 'TimeArray.__setitem__ modified its %s operand (%s)' % (kind, dd), {'what': 'operands'}))
                 for sgn in ('iadd', 'isub'):
-                    for shape in ('uniform', 'nonuniform'):
+                    for shape in ('uniform', 'nonuniform', 'almost'):
+                        if shape == 'almost' and (kind in ('uint8', 'int64-0d', 'int64-zeros', 'float64-zeros') or unit in ('s', 'h')):
+                            continue
                         if kind == 'int64-0d':
                             v = f(1)
                         else:
                             base = np.arange(4) * (2 if kind != 'floatlist' else 2.0)
                             if shape == 'nonuniform':
                                 base = base + np.array([0, 0, 1, 0])
+                            if shape == 'almost':
+                                base = np.arange(4) * 10**6 + np.array([0, 0, 1, 0])
                             if kind in ('int64-zeros', 'float64-zeros'):
                                 base = base * 0
                             v = (base.astype(np.int32) if kind == 'int32' else list(map(float, base)) if kind == 'floatlist' else
@@ -1308,6 +1609,9 @@ def unmodelled_operands(tier, seed):
                         dd = differs(b, snap(v))
                         if dd:
                             fails.append(Failure('uniform-%s/%s/%s/operand-%s' % (sgn, shape, kind, dd), 'UniformTime %s modified its %s operand (%s)' % (sgn, kind, dd), {'what': 'operands'}))
+                        if shape == 'almost' and not raised:
+                            fails.append(Failure('uniform-%s/almost/%s/non-uniform-operand-accepted' % (sgn, kind),
+                                                 'UniformTime %s accepted the %s operand [0, 1000000, 2000001, 3000000] %s, which is not equally spaced' % (sgn, kind, unit), {'what': 'operands'}))
                         if raised and snap(u) != ub:
                             fails.append(Failure('uniform-%s/%s/%s/changed-on-reject' % (sgn, shape, kind), 'a refused UniformTime %s (%s %s operand) changed the axis' % (sgn, shape, kind), {'what': 'operands'}))
     return fails, n
@@ -1352,10 +1656,12 @@ def replay(d):
         fs, _ = oracle(None, 'quick', 0, [], [])
         return next((f for f in fs if f.key == d['key']), None)
     if d.get('what') == 'sweep':
-        only = {'name': d.get('name'), 'fam': d.get('fam')} if d.get('name') and d.get('fam') else None
+        # the recorded entry point in the recorded family / size variant; when that does not reproduce, the whole table of
+        # that family (a history failure may need the other entries to have run)
+        only = {'name': d.get('name'), 'fam': d.get('fam'), 'variant': d.get('variant')} if d.get('name') and d.get('fam') else None
         fs, _ = sweep('thorough', int(d.get('seed', 0)), only=only)
         if only and not any(f.key == d.get('key') for f in fs):
-            fs, _ = sweep('thorough', int(d.get('seed', 0)))
+            fs, _ = sweep('thorough', int(d.get('seed', 0)), only={'fam': d.get('fam'), 'variant': d.get('variant')})
     elif d.get('what') == 'copies':
         fs = copies('quick', 0) + axis_copy_forms('quick', 0) + series_share_nothing('quick', 0)
     elif d.get('what') == 'operands':
